@@ -204,7 +204,9 @@ def build_driver(name):
     ex_v = os.path.join(COQ, "extract", "%s.v" % name)
     main_ml = os.path.join(ROOT, "ocaml", "%s_main.ml" % name)
     common = os.path.join(ROOT, "ocaml", "common.ml")
-    srcs = [ex_v, main_ml, common]
+    m = re.search(r"\(\*\s*deps:\s*([^*]*?)\s*\*\)", open(main_ml).read())
+    extra_ml = m.group(1).split() if m else []
+    srcs = [ex_v, main_ml, common] + [os.path.join(ROOT, "ocaml", d) for d in extra_ml]
     for base, _, files in os.walk(os.path.join(COQ, "theories")):
         if os.path.basename(base) == "Properties":
             continue
@@ -234,7 +236,9 @@ def build_driver(name):
             raise RuntimeError("extraction failed:\n" + out[-3000:])
         shutil.copy(common, out_dir)
         shutil.copy(main_ml, os.path.join(out_dir, "main.ml"))
-        mls = sorted(f for f in os.listdir(out_dir) if f.endswith(".ml") and f not in ("common.ml", "main.ml"))
+        for dep in extra_ml:
+            shutil.copy(os.path.join(ROOT, "ocaml", dep), out_dir)
+        mls = sorted(f for f in os.listdir(out_dir) if f.endswith(".ml") and f not in ["common.ml", "main.ml"] + extra_ml)
         # extracted module(s) first (mli before ml), then common, then main
         order = []
         for f in mls:
@@ -242,7 +246,7 @@ def build_driver(name):
                 order.append(f + "i")
             order.append(f)
         cmd = ["ocamlfind", "ocamlopt", "-package", "str,unix", "-linkpkg", "-w", "-a", "-o", "driver.exe"] \
-            + order + ["common.ml", "main.ml"]
+            + order + ["common.ml"] + extra_ml + ["main.ml"]
         rc, out = sh(cmd, cwd=out_dir, timeout=1800)
         if rc != 0:
             raise RuntimeError("ocaml build failed:\n" + out[-3000:])
@@ -264,6 +268,8 @@ def build_harness(name, scratch):
         for rel, src in json.load(open(extra)).items():
             ov[os.path.join(REPO, rel)] = os.path.join(hdir, src)
             # files placed into other packages must not be part of package main
+            if rel.startswith("cmd/verif_" + name + "/"):
+                continue
             ov.pop(os.path.join(REPO, "cmd", "verif_" + name, os.path.basename(src)), None)
     ovp = os.path.join(scratch, "overlay-%s.json" % name)
     json.dump({"Replace": ov}, open(ovp, "w"))
